@@ -109,10 +109,7 @@ def judge_roundtrip(spec, rdclass, wire, rorigin, o, rel, style, probs, path="",
     T = spec.name
     ref = R.ref_decode(spec, wire, 0, len(wire))
     values = ref[1] if ref[0] == "ok" else None
-    try:
-        r = dns.rdata.from_wire(rdclass, spec.rdtype, wire, 0, len(wire), _lo(rorigin))
-    except Exception as e:
-        raise AssertionError("C05 base record rejected by from_wire (C02's business): %s %s %s" % (T, wire.hex(), e))
+    r = dns.rdata.from_wire(rdclass, spec.rdtype, wire, 0, len(wire), _lo(rorigin))   # FormError: see run_case
     oo = EXAMPLE
     try:
         text = _to_text(r, o, rel, style)
@@ -318,6 +315,14 @@ def run_case(case):
     spec = R.BY_NAME[case["spec"]]
     mode = case["mode"]
     probs = []
+    try:
+        return _run_case(spec, mode, case, probs), probs
+    except dns.exception.FormError:
+        # the reference-well-formed base record was rejected by from_wire: C02's business, nothing to round-trip
+        return "base-rejected-by-from_wire", probs
+
+
+def _run_case(spec, mode, case, probs):
     if mode == "rt":
         label = judge_roundtrip(spec, case["rdclass"], bytes(case["wire"]), case["rorigin"], case["o"], case["rel"], case["style"], probs)
     elif mode == "gen":
@@ -330,7 +335,7 @@ def run_case(case):
         label = judge_token_text(spec, case["rdclass"], case["text"], probs)
     else:
         raise AssertionError(mode)
-    return label, probs
+    return label
 
 
 def recheck(case):
@@ -390,8 +395,8 @@ def task_values(task, col):
         _value_cases(col, spec, rdclass, values)
         if first:
             w = R.ref_encode(spec, values)
-            r = dns.rdata.from_wire(rdclass, spec.rdtype, w, 0, len(w))
             try:
+                r = dns.rdata.from_wire(rdclass, spec.rdtype, w, 0, len(w))
                 col.sample({"type": name, "rdclass": rdclass, "text": r.to_text()[:200]}, limit=1)
             except Exception:
                 pass
@@ -447,14 +452,16 @@ def task_tokens(task, col):
         if spec.text_issues(values):
             continue
         w = R.ref_encode(spec, values)
-        r = dns.rdata.from_wire(rdclass, spec.rdtype, w, 0, len(w))
         try:
+            r = dns.rdata.from_wire(rdclass, spec.rdtype, w, 0, len(w))
             text = r.to_text()
         except Exception:
             continue
         toks = TOKEN_RE.findall(text)
         if len(toks) > 24:
+            col.count("token_bases_skipped_more_than_24_tokens")
             continue
+        col.count("token_bases")
         muts = [" ".join(toks[:-1]), " ".join(toks + ["0"]), " ".join(toks + ["a"]), "( " + " ".join(toks) + " )"]
         for i in range(len(toks)):
             for rep in REPL:
@@ -503,7 +510,7 @@ def run(ctx):
     ctx.extra["types_without_text_parser"] = [s.name for s in R.SPECS if not s.text]
     ctx.extra["generic_unknown_cases"] = cov["generic_unknown"]
     ctx.extra["bounds"] = {"k": k, "pair_cap": cap, "alphabet8_max_len": n8, "all_2_octet_strings": not q,
-                           "styles": [s or "default" for s in STYLES], "charstr_pairs_alphabet": len(ALPHA20),
+                           "styles": [s or "default" for s in STYLES], "charstr_pairs_alphabet": len(ALPHA20), "token_base_max_tokens": 24, "token_bases_per_dim": ctx.pick(3, 8),
                            "token_replacements": len(REPL)}
     ctx.extra["charstr_fields"] = {s.name: [f.name for f in s.fields if f.kind.charstr] for s in R.SPECS
                                    if any(f.kind.charstr for f in s.fields)}
